@@ -250,11 +250,11 @@ Lemma p_dispatch s c r : rest s = c :: r ->
       if c =? 10 then scanNewline s
       else if c =? 59 then scanComment s
       else if c =? 40 then
-        (if looksLikeVirtualAccount s then let s' := advance s in (makeToken TLParen [40] s', s') else scanCode s)
-      else if c =? 41 then let s' := advance s in (makeToken TRParen [41] s', s')
-      else if c =? 91 then let s' := advance s in (makeToken TLBracket [91] s', s')
-      else if c =? 93 then let s' := advance s in (makeToken TRBracket [93] s', s')
-      else if c =? 124 then let s' := advance s in (makeToken TPipe [124] s', s')
+        (if looksLikeVirtualAccount s then scanSingle TLParen [40] s else scanCode s)
+      else if c =? 41 then scanSingle TRParen [41] s
+      else if c =? 91 then scanSingle TLBracket [91] s
+      else if c =? 93 then scanSingle TRBracket [93] s
+      else if c =? 124 then scanSingle TPipe [124] s
       else if c =? 64 then scanAt s
       else if c =? 61 then scanEquals s
       else if (c =? 42) || (c =? 33) then scanStatus s
@@ -271,11 +271,11 @@ Proof.
   destruct (c =? 10) eqn:E1; [apply p_scanNewline; exact Hne|].
   destruct (c =? 59) eqn:E2; [apply p_scanComment; exact Hne|].
   destruct (c =? 40) eqn:E3.
-  { destruct (looksLikeVirtualAccount s); [cbn [snd]; apply p_one; exact Hne|apply p_scanCode; exact Hne]. }
-  destruct (c =? 41) eqn:E4; [cbn [snd]; apply p_one; exact Hne|].
-  destruct (c =? 91) eqn:E5; [cbn [snd]; apply p_one; exact Hne|].
-  destruct (c =? 93) eqn:E6; [cbn [snd]; apply p_one; exact Hne|].
-  destruct (c =? 124) eqn:E7; [cbn [snd]; apply p_one; exact Hne|].
+  { destruct (looksLikeVirtualAccount s); [unfold scanSingle; cbn [snd]; apply p_one; exact Hne|apply p_scanCode; exact Hne]. }
+  destruct (c =? 41) eqn:E4; [unfold scanSingle; cbn [snd]; apply p_one; exact Hne|].
+  destruct (c =? 91) eqn:E5; [unfold scanSingle; cbn [snd]; apply p_one; exact Hne|].
+  destruct (c =? 93) eqn:E6; [unfold scanSingle; cbn [snd]; apply p_one; exact Hne|].
+  destruct (c =? 124) eqn:E7; [unfold scanSingle; cbn [snd]; apply p_one; exact Hne|].
   destruct (c =? 64) eqn:E8; [apply p_scanAt; exact Hne|].
   destruct (c =? 61) eqn:E9; [apply p_scanEquals; exact Hne|].
   assert (Hstop : ((c =? 10) || (c =? 59) || (c =? 124)) = false) by lia.
